@@ -84,7 +84,7 @@ func PodInDefaultGroup(p *v1.Pod) Tri {
 		return Yes
 	}
 	if a.NodeAffinity == nil && a.PodAffinity == nil && a.PodAntiAffinity == nil {
-		return Either // structurally empty affinity
+		return Yes // `affinity: {}` (what templating usually renders): an empty object holds no affinity rule
 	}
 	if affinityHasRule(a) {
 		return No
